@@ -141,8 +141,12 @@ def twoStepFresnel(Uin, wvl, d1, d2, z):
     B = numpy.exp(1j * k/(2*Dz1) * (x1a**2 + y1a**2) )
     C = fouriertransform.ft2(Uin * numpy.exp(1j * k/(2*Dz1) * (x1**2 + y1**2)), d1)
     Uitm = A*B*C
-    #Observation plane
-    Dz2 = z - Dz1
+    #Observation plane. Dz2 = z - Dz1, written without the subtraction: for a
+    #small magnification z - z/(1-m) loses a relative eps/m of -m*z/(1-m)
+    if m == 1:
+        Dz2 = z - Dz1
+    else:
+        Dz2 = -m * Dz1
 
     #coordinates
     x2,y2 = numpy.meshgrid( numpy.arange(-N/2., N/2.) * d2,
